@@ -19,6 +19,79 @@ TOL = 1e-9
 TOL_QR = 1e-8     # _decompose_qr drops entries below 1e-10 (relative) at every site by design
 
 
+def _symbolic(mpo):
+    res = []
+    for b in mpo.symbolic_out_ops_list:
+        bb = []
+        for oo in b:
+            oo = oo if isinstance(oo, list) else [oo]
+            bb.append(sorted((tuple(int(v) for v in o.symbol), complex(o.factor)) for o in oo))
+        res.append(bb)
+    return res
+
+
+def scale_twin_check(case, algo, mpo):
+    import copy
+    k = case["scale_exp"]
+    c = 2.0 ** k
+    twin = copy.deepcopy(case)
+    for t in twin["terms"]:
+        t["f"] = [t["f"][0] * c, t["f"][1] * c]
+    twin["offset"] = twin["offset"] * c
+    if twin.get("offset_unit"):
+        twin["offset_value"] = twin["offset_value"] * c
+    basis, terms, offset = L.build(twin)
+    mpo2 = Mpo(Model(basis, []), terms, offset=offset, algo=algo)
+    if list(mpo.bond_dims) != list(mpo2.bond_dims):
+        return "bond dimensions change under an overall scale 2^-%d: %s vs %s" % (k, list(mpo.bond_dims), list(mpo2.bond_dims))
+    s1, s2 = _symbolic(mpo), _symbolic(mpo2)
+    if [[[x[0] for x in oo] for oo in b] for b in s1] != [[[x[0] for x in oo] for oo in b] for b in s2]:
+        return "symbolic structure (out-op keys) changes under an overall scale 2^-%d" % k
+    for b1, b2 in zip(s1, s2):
+        for o1, o2 in zip(b1, b2):
+            for (k1, f1), (k2, f2) in zip(o1, o2):
+                if not (f1 * c == f2 or (f1 == 1 and f2 == 1)):
+                    return "out-op factor %r is neither 2^-%d times its twin %r nor a literal 1" % (f1, k, f2)
+    err = L.rel_err(mpo.todense() * c, mpo2.todense())
+    if not err <= 1e-12:
+        return "MPO(c*H) != c*MPO(H) for c = 2^-%d: relative difference %.3e" % (k, err)
+    return None
+
+
+def check_many_terms(spec):
+    """SCALE case: all 5^n products of {I, sigma_x, sigma_z, sigma_+, sigma_-} over n spin sites, a different integer
+    coefficient each (n = 7: 78125 > 65535 distinct terms); reference by contracting the coefficient tensor with
+    the 2x2 matrices site by site (NumPy only)"""
+    import itertools
+    from renormalizer.model import Op
+    from renormalizer.model.basis import BasisHalfSpin
+    n = spec["n"]
+    syms = ["I", "sigma_x", "sigma_z", "sigma_+", "sigma_-"]
+    mats = np.array([[[1., 0], [0, 1]], [[0, 1.], [1, 0]], [[1., 0], [0, -1]], [[0, 1.], [0, 0]], [[0, 0.], [1, 0]]])
+    rng = np.random.default_rng(spec.get("seed", 0))
+    C = rng.integers(1, 1000, size=(5,) * n).astype(float)
+    T = C
+    for _ in range(n):
+        T = np.tensordot(T, mats, axes=([0], [0]))
+    ref = T.transpose(list(range(0, 2 * n, 2)) + list(range(1, 2 * n, 2))).reshape(2 ** n, 2 ** n)
+    dofs = list(range(n))
+    terms = [Op(" ".join(syms[k] for k in ks), dofs, C[ks]) for ks in itertools.product(range(5), repeat=n)]
+    fails = []
+    ne = 0
+    for algo in spec["algos"]:
+        try:
+            mpo = Mpo(Model([BasisHalfSpin(i) for i in range(n)], []), terms, algo=algo)
+            err = L.rel_err(mpo.todense(), ref)
+            ne += 1
+            if not err <= (TOL_QR if algo.startswith("qr") else TOL):
+                fails.append({"id": -7, "algo": algo, "stage": "manyterms", "kind": "mismatch",
+                              "detail": "%d terms: relative error %.3e" % (len(terms), err)})
+        except Exception as e:
+            fails.append({"id": -7, "algo": algo, "stage": "manyterms", "kind": "exception",
+                          "detail": "%s: %s" % (type(e).__name__, str(e)[:200]), "where": traceback.format_exc()[-500:]})
+    return fails, ne
+
+
 def check_case(case, algos):
     fails = []
     n_eval = 0
@@ -39,6 +112,13 @@ def check_case(case, algos):
         if not err <= tol:
             fails.append({"id": case["id"], "algo": algo, "stage": "construct", "kind": "mismatch", "detail": err})
             continue
+        if case.get("scale_exp") and not algo.startswith("qr"):
+            # overall-scale invariance: the case is 2^-k times its twin; same symbolic structure, operator exactly scaled
+            msg = scale_twin_check(case, algo, mpo)
+            n_eval += 1
+            if msg:
+                fails.append({"id": case["id"], "algo": algo, "stage": "scale", "kind": "mismatch", "detail": msg})
+                continue
         if case.get("swaps"):
             order = list(range(len(case["sites"])))
             for k, pos in enumerate(case["swaps"]):
@@ -115,6 +195,10 @@ def main():
     fails = []
     ne = ns = 0
     nh = 0
+    if payload.get("many_terms"):
+        f, a = check_many_terms(payload["many_terms"])
+        fails += f
+        ne += a
     for h in payload.get("histories", []):
         try:
             f, a = check_history(h)
@@ -123,7 +207,7 @@ def main():
         except Exception:
             fails.append({"id": h["id"], "algo": None, "stage": "harness", "kind": "exception",
                           "detail": traceback.format_exc()[-600:]})
-    for case in payload["cases"]:
+    for case in payload.get("cases", []):
         try:
             f, a, b = check_case(case, payload["algos"])
             fails += f
